@@ -39,6 +39,21 @@ def rand_path(rng, dist=False, hostile=0.5):
     depth = 1 if dist else rng.choice([1, 1, 2, 2, 3, 5])
     comps = [rand_component(rng, hostile) for _ in range(depth)]
     p = '/'.join(comps)
+    if not dist and rng.random() < 0.08:
+        # legal but non-normalised spellings must round-trip verbatim too
+        k = rng.randrange(6)
+        if k == 0:
+            p = p.replace('/', '//', 1) if '/' in p else p + '//' + 'x'
+        elif k == 1:
+            p = './' + p
+        elif k == 2:
+            p = p + '/'
+        elif k == 3:
+            p = p + '/../' + rand_component(rng, 0)
+        elif k == 4:
+            p = p + '/./' + rand_component(rng, 0)
+        else:
+            p = '../' + p
     if p.startswith('/'):
         p = 'a' + p
     return p
